@@ -282,7 +282,8 @@ LEVEL_TEXT = ("Theorems in coq/theories/Properties/C37.v about a transition syst
               "operations the refcount equals live holders + queued removals (+ futures mid-way through the owner-change "
               "subscription), hence when nothing is in flight the registered rules are exactly the signal rules with a live "
               "subscriber, a rule in use is always registered, and the action that sends RemoveMatch(r) leaves no live holder of "
-              "r. PARTIAL: the full statement is refuted by the faithful model (a cloned MessageStream is not counted, so dropping "
+              "r; and the executable oracle that judges the implementation's output accepts every sequential run of the model "
+              "(so it asks for nothing the invariants do not give). PARTIAL: the full statement is refuted by the faithful model (a cloned MessageStream is not counted, so dropping "
               "the clone unregisters the rule under the original; the NameAcquired/NameLost rules added by request_name are never "
               "removed); both confirmed on the real code and listed as known findings.")
 LEVEL_NOTE = ("Trusted: Coq kernel; the hand-written model, tied to the code by running the real bus-connection code over a scripted "
